@@ -35,6 +35,15 @@ pub fn observe<R>(what: &str, limits: Limits, f: impl FnOnce() -> R) -> Result<(
                     format!("{}: a single allocation of {} bytes was requested (bound for this input: {})", what, snap.max_request, limits.alloc_bound),
                 ));
             }
+            // cumulative work: the bytes requested over the whole call, however briefly held
+            // (a decoder that spins over elements that are not there allocates per iteration)
+            let total_bound = (16usize << 20) + 65_536 * ((limits.alloc_bound - (1 << 20)) / 4096);
+            if snap.total > total_bound {
+                return Err(Fail::new(
+                    &format!("alloc-total:{}", what),
+                    format!("{}: {} bytes were allocated in {} requests during the call (bound for this input: {})", what, snap.total, snap.allocs, total_bound),
+                ));
+            }
             if snap.peak_over_start > limits.alloc_bound as isize {
                 return Err(Fail::new(
                     &format!("alloc:{}", what),
